@@ -260,7 +260,7 @@ package inference
 //@ -- backward edge of an undetermined value is handed to observeImplication with the right orientation.
 //@ -- Values decoded from dependency facts are ASSUMED well-formed (they were exported by this same code).
 //@ func (*Engine).ObserveUpstream$2
-//@ prop C05 C03 C06 C01
+//@ prop C05 C03 C06 C01 C09
 //@ requires (engOK e)
 //@ assume imported-values-are-well-formed (valOK val)
 //@ modifies (map e.primitive.objPathCache) (obj e.inferredMap.mapping) (map e.inferredMap.mapping.inner) (elems e.inferredMap.mapping.Pairs) (obj (omPair e.inferredMap.mapping 0)) (obj (implOf e.inferredMap)) (map (. (implOf e.inferredMap) inner)) (elems (. (implOf e.inferredMap) Pairs)) (obj (omPair (implOf e.inferredMap) 0))
